@@ -300,14 +300,38 @@ def _r4(ctx):
     ctx.floor(R, 3)
 
 
+def _r5(ctx):
+    R = "C23-R5"
+    ctx.doc(R, "the parser sees the string as written: _parse_einsum_entry hands the `einsum` value to _parse_einsum_string unchanged (the whitespace-between-names guard works on the original text)")
+    fi = ctx.func(WL, "_parse_einsum_entry", R)
+    calls = fi.calls("_parse_einsum_string")
+    ctx.require(len(calls) == 1 and calls[0].args, R, "call of _parse_einsum_string")
+    a = calls[0].args[0]
+    defs = {}
+    for st in fi.stmts():
+        for t, v, _ in assigned_targets(st):
+            if isinstance(t, ast.Name):
+                defs.setdefault(t.id, []).append(v)
+    e = a
+    if isinstance(a, ast.Name) and len(defs.get(a.id, ())) == 1:
+        e = defs[a.id][0]
+    bad = [c for c in ast.walk(e) if isinstance(c, ast.Call) and isinstance(c.func, ast.Attribute) and c.func.attr in ("join", "split", "replace", "translate", "sub", "strip", "lstrip", "rstrip", "casefold", "lower", "upper")]
+    bad = [c for c in bad if c.func.attr not in ("strip", "lstrip", "rstrip")]
+    ctx.check(not bad, R, fi, e, f"the Einsum string is rewritten (`{norm(e)[:80]}`) before it is parsed: whitespace between two names disappears, so `B C[k, n]` is read as tensor `BC` and `A[m k]` as rank variable `mk` "
+              "instead of being rejected", "string passed on as written")
+    ctx.floor(R, 1)
+
+
 def check(ctx):
     _r1(ctx)
     _r2(ctx)
     _r3(ctx)
     _r4(ctx)
+    _r5(ctx)
 
 
 VARIANTS = [
+    {"kind": "F", "name": "whitespace-removed-before-parsing", "rule": "C23-R5", "edits": [(WL, '    einsum_str = einsum_entry.pop("einsum")', '    einsum_str = "".join(str(einsum_entry.pop("einsum")).split())')]},
     {"kind": "F", "name": "shorthand-entry-overwrites-silently", "rule": "C23-R4", "edits": [(WL, """            if part.upper() in result:
                 raise ValueError(
                     f"Duplicate rank entry: {part.upper()}. Must be unique. {s}"
